@@ -186,6 +186,16 @@ Theorem C04_checker_accepts_model : forall c,
 Proof. exact checker_accepts_model. Qed.
 Print Assumptions C04_checker_accepts_model.
 
+(* the same for end-to-end cases (wrapper observations: registered, Connected / Disconnected calls, block,
+   closure, registry record read back) of a fresh remote: when the observation equals the model's prediction
+   none of the clauses enrolled-without:*, effect-on-refusal, refused-left-open, refused-still-registered
+   fires *)
+Theorem C04_checker_accepts_model_e2e : forall c w,
+  mode c <> 0%N -> o_wrap c = Some w -> prior c = None -> stall c = false ->
+  agrees c = true -> violation c = [].
+Proof. exact checker_accepts_model_e2e. Qed.
+Print Assumptions C04_checker_accepts_model_e2e.
+
 Theorem C04_checker_sound : forall c A T,
   enrol_violation c A T = None ->
   exists role token sig ea er,
@@ -270,6 +280,49 @@ Print Assumptions C04_refusal_outbound_leaves_nothing.
 (* That handshake.Service itself keeps nothing between handshakes is the shape of the model ([handle] and
    [handshake] have no state argument), not a theorem; it is what the driver's session classes test (a
    prelude of handshakes on one long-lived Service, registry answers changing in between). *)
+
+(* ---- a remote that stalls --------------------------------------------------------------------------------------
+   [handle_waits] / [handshake_waits]: the run has consumed everything that arrived and is blocked in a
+   read.  The handshake has NO deadline of its own: the read ends only with the context it was given --
+   handleConnectReq passes the Service's base context (ended by Close only), Connect its caller's.  While
+   it waits no (A, T) is admissible for what has arrived, hence (C04_responder / C04_initiator) nothing is
+   registered, announced or returned; once the context ends the read -- whatever arrives later -- the
+   outcome is a read refusal: all connections of the peer closed, no block, nothing announced.  The
+   "connection refused" half of C04 for a staller therefore rests on that context ending (interpretation:
+   a stalled exchange is not yet a transcript; it becomes the truncated one when the read is cancelled). *)
+Theorem C04_stalled_responder : forall c o wfail script,
+  handle_waits c o wfail script = true ->
+  (forall A T, ~ resp_ok c o wfail script A T) /\
+  (forall more, handle c o wfail (script ++ eof :: more) = handle c o wfail script) /\
+  res (handle c o wfail script) = Refuse RRead /\
+  (forall more has_notifier add,
+     inbound c o wfail (script ++ eof :: more) has_notifier add = [EResetStream; EClosePeer]).
+Proof. exact stalled_responder. Qed.
+Print Assumptions C04_stalled_responder.
+
+Theorem C04_stalled_initiator : forall c o wfail script,
+  handshake_waits c o wfail script = true ->
+  (forall A T, ~ init_ok c o wfail script A T) /\
+  (forall more, handshake c o wfail (script ++ eof :: more) = handshake c o wfail script) /\
+  res (handshake c o wfail script) = Refuse RRead /\
+  (forall more add,
+     outbound c o wfail (script ++ eof :: more) add = [EClosePeer; EReturnErr RRead]).
+Proof. exact stalled_initiator. Qed.
+Print Assumptions C04_stalled_initiator.
+
+(* The stake gate and the role: a remote is enrolled as provider, and the registry is asked, for the
+   exact string "provider" only; every other role string whose signature verifies is enrolled WITHOUT a
+   registry question -- "bootnode"/"bidder" with their type, any other string (e.g. "Provider",
+   " provider", "") with p2p.PeerType(-1).  (Recorded finding: such unknown-role peers are registered
+   and announced; C04 as worded is not violated, they are not providers.) *)
+Theorem C04_provider_exactly : forall c o wfail script A T role token sig f1 rest,
+  script = f1 :: rest -> as_req f1 = Some (role, token, sig) ->
+  res (handle c o wfail script) = Enrol A T ->
+  (T = type_provider <-> role = provider_string) /\
+  (lookups (handle c o wfail script) <> [] <-> role = provider_string) /\
+  (T = -1 <-> ~ In role valid_roles).
+Proof. exact provider_exactly. Qed.
+Print Assumptions C04_provider_exactly.
 
 (* ---- composition with C17 (proofs/Compose_p2p.v) -----------------------------------------------------------
    The EBlock effects above are the Block events of model/Blocklist.v ([Compose_p2p.block_events p t0 effs]:
